@@ -523,6 +523,32 @@ class H:
             h.pre_ctx[tid] = c
             sim.log("task_pre", tf=fid, task=tid, fresh=id(c) not in h.ids, view=h.view(c))
 
+        if t.get("uh_obj"):
+            # the target is a callable *object* with value semantics (an ordinary @dataclass
+            # with an async __call__): equality defined, hence not hashable
+            if t.get("started_delay") is not None:
+
+                class _UhTarget:
+                    __hash__ = None  # type: ignore[assignment]
+
+                    def __eq__(self_, other: Any) -> bool:
+                        return type(other) is type(self_)
+
+                    async def __call__(self_, *, task_status: Any) -> Any:
+                        return await run(task_status)
+
+            else:
+
+                class _UhTarget:  # type: ignore[no-redef]
+                    __hash__ = None  # type: ignore[assignment]
+
+                    def __eq__(self_, other: Any) -> bool:
+                        return type(other) is type(self_)
+
+                    async def __call__(self_) -> Any:
+                        return await run(None)
+
+            return _UhTarget()
         if t.get("started_delay") is not None:
             if t.get("sync_part"):
 
@@ -1302,6 +1328,8 @@ class G:
             t["cleanup"] = rng.choice(DTS[1:5])
         if rng.random() < 0.2:
             t["sync_part"] = True
+        elif rng.random() < 0.1:
+            t["uh_obj"] = True
         if "end" not in t and rng.random() < 0.12:
             t["own_td_raise"] = pick(rng, {"SimError": 3, "SimLookup": 1})
         elif rng.random() < 0.15:
